@@ -336,7 +336,7 @@ def run(rep, pool, driver, tier):
             rep.count('given_weights:%s:%s' % (t['flavour'], model.get('err', 'accepted')))
         rep.count('outcome:' + model.get('err', 'Returned'))
         if 'err' not in model:
-            rep.count('exact_domain' if model['bits'] <= 53 else 'tolerance_domain')
+            rep.count('exact_domain' if model['bits'] <= 49 else 'tolerance_domain')
         if stream == 'many_chunks':
             k = whgen.n_chunk_files(len(t['events']), t['per_file'])
             rep.count('chunk_files:%d' % k)
